@@ -137,3 +137,34 @@ package rtree
 //@   ensures result != nil && fresh(result) && result.count == len(items)
 //@   ensures (len(items) == 0) <==> (result.root == nil)
 //@   ensures result.root != nil ==> NodeCount(result.root)
+
+// ---- PrioritySearch (C11 stop protocol, C10 frame) in abstraction mode ----
+// The pointers into node arrays that are queued escape into interface values:
+// they are abstracted to unknown pointers, so what is read back through them
+// (child, record id, box) is unconstrained, and the unit's index/nil
+// obligations are not decided (nosafety).  container/heap is replaced by the
+// Go model in verif_harness_heap.go.  Decided for all trees and callbacks: the
+// search writes nothing that existed before the call (its queue is its own),
+// the callback is never invoked again after it returned an error, Stop (also
+// wrapped) surfaces as nil and any other error unchanged.
+//@ func (*RTree).PrioritySearch
+//@   abstractptrs
+//@   nosafety
+//@   ghost stopped: Bool, lastErr: Int
+//@   requires t != nil && !stopped && callback != nil
+//@   oncall callback requires !stopped
+//@   oncall callback ensures (stopped <==> result != nil) && (stopped ==> lastErr == result)
+//@   ensures !stopped ==> result == nil
+//@   ensures stopped && errors_is(lastErr, Stop) ==> result == nil
+//@   ensures stopped && !errors_is(lastErr, Stop) ==> result == lastErr
+//@   loop 0 invariant !stopped
+
+// the queueing closure and the heap model are inlined into PrioritySearch; their loops keep the protocol state
+//@ func (*RTree).PrioritySearch$1
+//@   noverify
+//@   inline
+//@   loop 0 invariant !stopped
+//@ func verifHeapShuffle
+//@   noverify
+//@   inline
+//@   loop 0 invariant !stopped
